@@ -1,23 +1,16 @@
 (** C03: the run-time monitor [Lookup.Check.spec_lookup] holds of what the model answers, on
     every cache satisfying the C12 invariant. *)
-From CM Require Import Lib.Str Lib.Wire Gen.Consts Cache.Model Cache.AMapFacts Cache.Proofs
-  Lookup.Model Lookup.Proofs Lookup.Check.
+From CM Require Import Lib.Str Lib.Wire Gen.Consts Cache.Model Cache.AMapFacts Cache.Proofs Cache.Check
+  Lookup.Model Lookup.Proofs Lookup.ProofsX Lookup.Check.
 From Coq Require Import Arith.
 Open Scope nat_scope.
 Arguments count_str : simpl never.
-
-Definition with_obs (c : lcase) (o : obs) : lcase :=
-  LCase (l_cap c) (l_state c) (l_attrs c) (l_cfg c) (l_sni c) (l_ip c) (l_env c) (l_loaded_complete c) o.
 
 (** the observation corresponding to a model result *)
 Definition obs_of (c : lcase) (r : result) : obs :=
   match r with
   | RErr => OErr
-  | ROk x => OCert (c_hash x)
-               (match alookup (c_hash x) (cache (l_state c)) with
-                | Some _ => at_complete (attr_get (l_attrs c) (c_hash x))
-                | None => l_loaded_complete c
-                end)
+  | ROk x => OCert (c_hash x) (known_complete c (c_hash x))
   end.
 
 Lemma first_listed_some s cands m : first_listed s cands = Some m ->
@@ -43,15 +36,18 @@ Section Spec.
   Variable names_of : hash -> list name.
   Variable c : lcase.
   Let s := l_state c.
-  Let supf := fun h => at_sup (attr_get (l_attrs c) h).
-  Let validf := fun h => at_valid (attr_get (l_attrs c) h).
+  Let supf := supf c.
+  Let validf := validf c.
   Let goodb := fun h => supf h && validf h.
   Notation Inv := (Inv names_of (l_cap c)).
   Notation normalize := (normalize lower is_space).
+  Notation hello_name := (hello_name lower is_space).
 
   Hypothesis HI : Inv s.
+  (** every cached certificate and every certificate in storage is complete (chain and key) *)
   Hypothesis Hcomplete : forall h x, alookup h (cache s) = Some x -> at_complete (attr_get (l_attrs c) h) = true.
-  Hypothesis Hloaded : forall lc, loaded (l_env c) = Some lc -> l_loaded_complete c = true.
+  Hypothesis Hstored : forall k x, alookup k (x_storage (l_envx c)) = Some x ->
+    alookup (c_hash (sd_cert x)) (l_stored_complete c) = Some true.
 
   Lemma matching_hash_in_idx m x : In x (get_all_matching_certs s m) -> In (c_hash x) (idx s m).
   Proof.
@@ -89,42 +85,98 @@ Section Spec.
       rewrite G1, G2. reflexivity.
   Qed.
 
-  Lemma complete_of_cached x : alookup (c_hash x) (cache s) = Some x ->
-    match alookup (c_hash x) (cache (l_state c)) with
-    | Some _ => at_complete (attr_get (l_attrs c) (c_hash x))
-    | None => l_loaded_complete c
-    end = true.
-  Proof. intros H. fold s. rewrite H. eapply Hcomplete; eauto. Qed.
+  Lemma complete_of_cached x : alookup (c_hash x) (cache s) = Some x -> known_complete c (c_hash x) = true.
+  Proof. intros H. unfold known_complete. fold s. rewrite H. eapply Hcomplete; eauto. Qed.
 
-  Theorem spec_lookup_of_model :
-    spec_lookup lower is_space (with_obs c (obs_of c (run_lookup lower is_space c))) = true.
+  Lemma load_from_storage_key st nm x : load_from_storage st nm = Some x -> exists k, alookup k st = Some x.
   Proof.
-    unfold spec_lookup, run_lookup. cbn [with_obs l_state l_sni l_attrs l_obs l_cfg l_cap l_env l_ip].
-    fold s supf validf goodb.
-    unfold match_names. cbn [with_obs l_sni l_ip].
+    unfold load_from_storage. destruct (alookup nm st) as [y|] eqn:E.
+    - intros H; injection H as <-. eauto.
+    - eauto.
+  Qed.
+
+  Lemma complete_of_loaded cap0 (x : stored) :
+    load_ok lower is_space cap0 s (l_cfg c) (l_ip c) (l_envx c) x -> known_complete c (c_hash (sd_cert x)) = true.
+  Proof.
+    intros (nm & _ & _ & _ & Hl). apply load_from_storage_key in Hl. destruct Hl as [k Hk].
+    unfold known_complete. fold s. destruct (alookup (c_hash (sd_cert x)) (cache s)) as [y|] eqn:E.
+    - eapply Hcomplete; eauto.
+    - rewrite (Hstored k x Hk). reflexivity.
+  Qed.
+
+  Lemma loaded_ok_of_load (x : stored) :
+    load_ok lower is_space (l_cap c) s (l_cfg c) (l_ip c) (l_envx c) x -> sd_fresh x = true ->
+    loaded_ok lower is_space c (c_hash (sd_cert x)) = true.
+  Proof.
+    intros (nm & Hn & Hq & Ha & Hl) Hfr. unfold loaded_ok. fold s. rewrite Ha, Hn, Hq, Hl, Hfr, str_eqb_refl. reflexivity.
+  Qed.
+
+  (** the names tried for a match decide when the selector accepts one of them *)
+  Lemma matched_decides sel m x :
+    first_sel sel s (match_names lower is_space c) = Some (m, x) ->
+    from_cache_x lower is_space sel s (l_cfg c) (l_sni c) (l_ip c) = Some (x, true, m).
+  Proof.
+    unfold match_names, Model.from_cache_x. destruct (is_nil (normalize (l_sni c))).
+    - cbn [first_sel]. destruct (sel s (l_ip c)); [|discriminate]. intros H; injection H as <- <-. reflexivity.
+    - intros ->. reflexivity.
+  Qed.
+  Lemma unmatched_defaults sel x b v :
+    first_sel sel s (match_names lower is_space c) = None ->
+    from_cache_x lower is_space sel s (l_cfg c) (l_sni c) (l_ip c) = Some (x, b, v) ->
+    b = false /\
+    ((is_nil (normalize (l_sni c)) = true /\ is_nil (default_name (l_cfg c)) = false /\
+      v = normalize (default_name (l_cfg c)) /\ sel s v = Some x) \/
+     (is_nil (fallback_name (l_cfg c)) = false /\ v = normalize (fallback_name (l_cfg c)) /\ sel s v = Some x)).
+  Proof.
+    unfold match_names, Model.from_cache_x, try_fallback_x. destruct (is_nil (normalize (l_sni c))).
+    - cbn [first_sel]. destruct (sel s (l_ip c)); [discriminate|]. intros _.
+      destruct (is_nil (default_name (l_cfg c))).
+      + destruct (is_nil (fallback_name (l_cfg c))); [discriminate|].
+        destruct (sel s (normalize (fallback_name (l_cfg c)))) eqn:E; [|discriminate].
+        intros H; injection H as <- <- <-. split; [reflexivity|]. right. auto.
+      + destruct (sel s (normalize (default_name (l_cfg c)))) eqn:Ed.
+        * intros H; injection H as <- <- <-. split; [reflexivity|]. left. auto.
+        * destruct (is_nil (fallback_name (l_cfg c))); [discriminate|].
+          destruct (sel s (normalize (fallback_name (l_cfg c)))) eqn:E; [|discriminate].
+          intros H; injection H as <- <- <-. split; [reflexivity|]. right. auto.
+    - intros ->. destruct (is_nil (fallback_name (l_cfg c))); [discriminate|].
+      destruct (sel s (normalize (fallback_name (l_cfg c)))) eqn:E; [|discriminate].
+      intros H; injection H as <- <- <-. split; [reflexivity|]. right. auto.
+  Qed.
+
+  (** ---- default policy ---- *)
+  Lemma spec_default : l_policy c = PDefault ->
+    spec_lookup_o lower is_space c (obs_of c (fst (run_lookup lower is_space c))) = true.
+  Proof.
+    intros Hp.
+    assert (Hself : self c = select_cert supf validf) by (unfold self; rewrite Hp; reflexivity).
+    unfold spec_lookup_o, run_lookup. rewrite Hp, Hself.
+    fold s. change (Check.supf c) with supf. change (Check.validf c) with validf.
+    unfold match_names.
     set (n := normalize (l_sni c)).
-    set (r := lookup lower is_space supf validf s (l_cap c) (l_cfg c) (l_sni c) (l_ip c) (l_env c)).
+    set (rr := lookup_x lower is_space (select_cert supf validf) s (l_cap c) (l_cfg c) (l_sni c) (l_ip c) (l_envx c)).
+    destruct rr as [r post] eqn:Err. cbn [fst snd].
     destruct (first_listed s (if is_nil n then [l_ip c] else n :: wildcard_candidates n)) as [m|] eqn:Efl.
     - (* a preferred name is listed: it decides *)
       assert (Hr : exists x, r = ROk x /\ select_cert supf validf s m = Some x).
-      { apply first_listed_some in Efl. destruct Efl as (pre & post & Hc & Hpre & Hm).
+      { apply first_listed_some in Efl. destruct Efl as (pre & post' & Hc & Hpre & Hm).
         destruct (is_nil n) eqn:En.
         - apply is_nil_true in En. destruct pre as [|p pre]; cbn [app] in Hc.
           + injection Hc as <- _. destruct (from_cache_ip lower is_space supf validf s (l_cfg c) (l_sni c) (l_ip c) En Hm) as (x & Hf & Hs).
-            exists x. split; [|exact Hs]. unfold r, lookup. rewrite Hf. reflexivity.
+            exists x. split; [|exact Hs]. unfold rr, lookup_x in Err. rewrite from_cache_x_default, Hf in Err. congruence.
           + injection Hc as _ Hc. destruct pre; discriminate.
         - apply is_nil_false in En.
-          destruct (from_cache_matched_first lower is_space supf validf s (l_cfg c) (l_sni c) (l_ip c) pre m post En Hc Hpre Hm) as (x & Hf & Hs).
-          exists x. split; [|exact Hs]. unfold r, lookup. rewrite Hf. reflexivity. }
+          destruct (from_cache_matched_first lower is_space supf validf s (l_cfg c) (l_sni c) (l_ip c) pre m post' En Hc Hpre Hm) as (x & Hf & Hs).
+          exists x. split; [|exact Hs]. unfold rr, lookup_x in Err. rewrite from_cache_x_default, Hf in Err. congruence. }
       destruct Hr as (x & -> & Hs). cbn [obs_of].
       destruct (selected_ok m x Hs) as (Hc & Hl & Hg).
-      unfold goodb, supf, validf in Hg. rewrite (complete_of_cached x Hc), Hl, Hg. reflexivity.
+      unfold goodb in Hg. rewrite (complete_of_cached x Hc), Hl, Hg. reflexivity.
     - (* nothing listed under a preferred name *)
       apply first_listed_none in Efl.
-      destruct r as [|x] eqn:Er; cbn [obs_of]; [reflexivity|].
-      unfold r in Er. destruct (lookup_cases _ _ _ _ _ _ _ _ _ _ _ Er) as [(b & v & Hf)|(Ha & Hl & Hne & Hq & _)].
-      + apply from_cache_some in Hf.
-        destruct Hf as [x m pre post Hn Hc Hpre Hs|x Hn Hs|x Hn Hip Hd Hs|x Hnone Hfb Hs].
+      destruct r as [|x]; cbn [obs_of]; [reflexivity|].
+      unfold rr in Err. destruct (lookup_x_cases _ _ _ _ _ _ _ _ _ _ _ Err) as [(b & v & Hf)|(x0 & Hlo & Hfr & -> & _)].
+      + rewrite from_cache_x_default in Hf. apply from_cache_some in Hf.
+        destruct Hf as [x m pre post' Hn Hc Hpre Hs|x Hn Hs|x Hn Hip Hd Hs|x Hnone Hfb Hs].
         * exfalso. fold n in Hn, Hc. apply is_nil_false in Hn. rewrite Hn in Efl.
           unfold name in *. rewrite Hc in Efl. apply Forall_app in Efl. destruct Efl as [_ Efl].
           inversion Efl as [|? ? Hm _]; subst. apply (proj2 (select_none supf validf s _)) in Hm. congruence.
@@ -136,9 +188,98 @@ Section Spec.
         * destruct (selected_ok _ x Hs) as (Hc & Hl & _).
           rewrite (complete_of_cached x Hc), Hl. apply is_nil_false in Hfb. rewrite Hfb.
           cbn [negb andb]. rewrite orb_true_r. reflexivity.
-      + fold s in Ha. rewrite Ha, Hl, str_eqb_refl. cbn [andb]. rewrite !orb_true_r, andb_true_r.
-        destruct (alookup (c_hash x) (cache (l_state c))) as [y|] eqn:E.
-        * eapply Hcomplete. fold s in E. exact E.
-        * eapply Hloaded; eauto.
+      + rewrite (complete_of_loaded _ x0 Hlo), (loaded_ok_of_load x0 Hlo Hfr). cbn [andb].
+        rewrite !orb_true_r. reflexivity.
+  Qed.
+
+  (** ---- a custom selector ---- *)
+  Lemma spec_custom : l_policy c <> PDefault ->
+    spec_lookup_o lower is_space c (obs_of c (fst (run_lookup lower is_space c))) = true.
+  Proof.
+    intros Hp. unfold spec_lookup_o, run_lookup.
+    fold s.
+    set (sel := self c) in *.
+    destruct (lookup_x lower is_space sel s (l_cap c) (l_cfg c) (l_sni c) (l_ip c) (l_envx c)) as [r post] eqn:Err.
+    cbn [fst snd].
+    assert (Hcase : match l_policy c with PDefault => False | _ => True end) by (destruct (l_policy c); [congruence | exact I ..]).
+    assert (Hgoal :
+      match obs_of c r with
+      | OEmpty => false
+      | OErr => forallb (fun v => match sel s v with Some _ => false | None => true end) (match_names lower is_space c)
+      | OCert h complete =>
+          complete && known_complete c h &&
+          match first_sel sel s (match_names lower is_space c) with
+          | Some (_, x) => str_eqb (c_hash x) h && amem h (cache s)
+          | None =>
+              (is_nil (normalize (l_sni c)) && negb (is_nil (default_name (l_cfg c))) &&
+                 sel_is c (normalize (default_name (l_cfg c))) h && amem h (cache s)) ||
+              (negb (is_nil (fallback_name (l_cfg c))) &&
+                 sel_is c (normalize (fallback_name (l_cfg c))) h && amem h (cache s)) ||
+              loaded_ok lower is_space c h
+          end
+      end = true).
+    { destruct r as [|x]; cbn [obs_of].
+      - (* an error: no name tried for a match was accepted *)
+        destruct (first_sel sel s (match_names lower is_space c)) as [[m x]|] eqn:Efs.
+        + apply matched_decides in Efs. unfold lookup_x in Err. rewrite Efs in Err. discriminate.
+        + apply (first_sel_none sel) in Efs. apply forallb_forall. intros v Hv.
+          rewrite Forall_forall in Efs. rewrite (Efs v Hv). reflexivity.
+      - destruct (first_sel sel s (match_names lower is_space c)) as [[m x']|] eqn:Efs.
+        + pose proof (matched_decides sel m x' Efs) as Hf. unfold lookup_x in Err. rewrite Hf in Err.
+          injection Err as <- _.
+          assert (Hc : alookup (c_hash x') (cache s) = Some x').
+          { apply first_sel_some in Efs. destruct Efs as (_ & _ & _ & _ & Hs).
+            eapply (sel_policy_in_cache (Check.supf c) (Check.validf c) names_of (l_cap c)); eauto. }
+          rewrite (complete_of_cached x' Hc), str_eqb_refl. cbn [andb].
+          apply amem_alookup. eauto.
+        + destruct (lookup_x_cases _ _ _ _ _ _ _ _ _ _ _ Err) as [(b & v & Hf)|(x0 & Hl & Hfr & -> & _)].
+          * destruct (unmatched_defaults sel x b v Efs Hf) as (_ & [(Hn & Hd & -> & Hs)|(Hfb & -> & Hs)]).
+            -- assert (Hc : alookup (c_hash x) (cache s) = Some x)
+                 by (eapply (sel_policy_in_cache (Check.supf c) (Check.validf c) names_of (l_cap c)); eauto).
+               assert (Hm : amem (c_hash x) (cache s) = true) by (apply amem_alookup; eauto).
+               rewrite (complete_of_cached x Hc), Hn, Hd, Hm. unfold sel_is. fold s. fold sel. rewrite Hs, str_eqb_refl.
+               reflexivity.
+            -- assert (Hc : alookup (c_hash x) (cache s) = Some x)
+                 by (eapply (sel_policy_in_cache (Check.supf c) (Check.validf c) names_of (l_cap c)); eauto).
+               assert (Hm : amem (c_hash x) (cache s) = true) by (apply amem_alookup; eauto).
+               rewrite (complete_of_cached x Hc), Hfb, Hm. unfold sel_is. fold s. fold sel. rewrite Hs, str_eqb_refl.
+               cbn [negb andb]. rewrite orb_true_r. reflexivity.
+          * rewrite (complete_of_loaded _ x0 Hl), (loaded_ok_of_load x0 Hl Hfr). cbn [andb].
+            rewrite !orb_true_r. reflexivity. }
+    destruct (l_policy c); [destruct Hcase | exact Hgoal ..].
+  Qed.
+
+  Theorem spec_lookup_of_model :
+    spec_lookup_o lower is_space c (obs_of c (fst (run_lookup lower is_space c))) = true.
+  Proof.
+    destruct (l_policy c) eqn:Ep; [apply spec_default; exact Ep | apply spec_custom; congruence ..].
   Qed.
 End Spec.
+
+(** ---- the cache clauses of the monitor ---- *)
+Lemma amap_eqb_refl_l {V} (veq : V -> V -> bool) (m : amap V) :
+  (forall v, veq v v = true) -> NoDup (akeys m) -> amap_eqb veq m m = true.
+Proof.
+  intros Hrefl Hnd. unfold amap_eqb. rewrite Nat.eqb_refl. cbn [andb].
+  apply forallb_forall. intros [k v] Hin. cbn [fst snd].
+  rewrite (In_alookup m k v Hnd Hin). apply Hrefl.
+Qed.
+
+Theorem spec_cache_of_model lower is_space c :
+  let nm := names_of_pool (Check.case_certs c) in
+  Inv nm (l_cap c) (l_state c) ->
+  (forall k x, alookup k (x_storage (l_envx c)) = Some x -> wf_cert nm (sd_cert x)) ->
+  spec_cache_p c (snd (run_lookup lower is_space c)) = true.
+Proof.
+  intros nm HI Hst. unfold spec_cache_p. fold nm. cbv zeta.
+  apply andb_true_iff; split; [apply andb_true_iff; split|].
+  - apply inv_b_complete. exact HI.
+  - apply inv_b_complete. unfold run_lookup. apply lookup_x_inv; assumption.
+  - destruct (almost_full (l_cap c) (length (cache (l_state c)))) eqn:Ea; [reflexivity|]. cbn [orb].
+    unfold run_lookup. rewrite lookup_x_unchanged by exact Ea.
+    unfold state_eqb. apply andb_true_iff. split; apply amap_eqb_refl_l.
+    + intros v. apply cert_eqb_eq. reflexivity.
+    + apply (inv_nodup _ _ _ HI).
+    + intros v. apply strs_eqb_eq. reflexivity.
+    + apply (inv_nodup_idx _ _ _ HI).
+Qed.
